@@ -506,6 +506,9 @@ class Ledger:
             p = m_call(idx[1], name='position', trait='Iterator')
             if p is not None and strip_sites(elem_source(p[0])) == strip_sites(elem_source(a[0])):
                 return ('D-POSITION', 'index returned by position() over the same vector')
+            fi = first_index(self.F, b, self.tb(b), idx[1])
+            if fi is not None and fi.kind == 'loop' and fi.coll == strip_sites(elem_source(a[0])):
+                return ('D-POSITION', 'index counted by the loop over the same vector up to the element found')
         return None
 
     def d_counter(self, s):
